@@ -335,7 +335,7 @@ def check_response(exp: Expected, view: View, extra_ok: Any = None) -> List[Tupl
             bad.append(("response-missing", "not-started", f"want status {exp.status}"))
             return bad
         if view.status != exp.status:
-            bad.append(("response-status", f"got-{view.status}-want-{exp.status}", ""))
+            bad.append(("response-status", f"got-{view.status}", f"want {exp.status}"))
             return bad
         _cmp_headers(exp, view, extra_ok, bad)
         if view.body != produced:
